@@ -9,7 +9,7 @@ PY = "/venv/bin/python -B -m vf.run"
 CHECKS = {
     "C01": dict(
         cat="exploration",
-        text="Post-condition oracle (pure-Python dict model over (name,dose)) on every Screen constructed from thousands of seeded hostile inputs, on re-constructions with a superset mapping batchie produced (object and fixed-width name arrays), on re-constructions from refilled buffers (same array objects, changed content), and on rejection cases (uncovered rows, gaps, names that extend a listed name); thorough also observes every Screen built by the repo's own tests. Bijection claim over all inputs: exploration with an exact oracle is what runtime monitoring can give.",
+        text="Post-condition oracle (pure-Python dict model over (name,dose)) on every Screen constructed from thousands of seeded hostile inputs, on re-constructions with a superset mapping batchie produced (object and fixed-width name arrays), on re-constructions from refilled buffers (same array objects, changed content), and on rejection cases (uncovered rows, gaps, names that extend a listed name), on screens the library builds itself from other screens (Screen.combine / Screen.concat, judged against the concatenated raw arrays and the parts' control name) and on plate ids after in-place Plate.merge with whole plates and partial views; thorough also observes every Screen built by the repo's own tests. Bijection claim over all inputs: exploration with an exact oracle is what runtime monitoring can give.",
         ref="4/C01",
         note="Trusts numpy/pandas string handling; NaN doses and NUL-containing names excluded; held only on the generated cases.",
         technique="runtime post-condition monitor on Screen.__init__ + reference encoder (dict model)",
@@ -44,7 +44,7 @@ CHECKS = {
     ),
     "C02": dict(
         cat="exploration",
-        text="Every observable of hostile, superset-mapped (real hold-out split / supplied mapping) and zero-row screens is compared field by field (strings by value, floats by bits, ids and mappings incl. rows absent from the data) after 1-4 real save_h5/load_h5 cycles, cycle k against cycle k-1; same for ExperimentSpace.",
+        text="Every observable of hostile, superset-mapped (real hold-out split / supplied mapping), in-place merged (1-3 Plate.merge before the first save) and zero-row screens is compared field by field (strings by value, floats by bits, ids and mappings incl. rows absent from the data) after 1-4 real save_h5/load_h5 cycles, cycle k against cycle k-1; same for ExperimentSpace.",
         ref="4/C02",
         note="h5py/numpy trusted; files compared through loaded content; NUL-containing names excluded.",
         technique="round-trip differential monitor over real h5 files with bit-level comparators",
@@ -121,14 +121,14 @@ CHECKS = {
     ),
     "C18": dict(
         cat="exploration",
-        text="Every randomised operation named in the property is executed twice with identical inputs and an identically seeded generator; run A is bracketed by snapshots of numpy's and Python's global random state; between the runs the globals are reseeded differently and during run B unrelated global draws are injected at line granularity (sys.monitoring LINE events restricted to batchie's code); outputs compared through bytes / loaded h5 content; CLI mains with --seed run in-process, thorough repeats them as fresh subprocesses under two PYTHONHASHSEED values.",
+        text="Every randomised operation named in the property is executed twice with identical inputs and an identically seeded generator; run A is bracketed by snapshots of numpy's and Python's global random state; between the runs the globals are reseeded differently and during run B unrelated global draws are injected at line granularity (sys.monitoring LINE events restricted to batchie's code); outputs compared through bytes / loaded h5 content; model training covers both MCMC models on fresh and on already sampled model objects, a well-behaved variational stub and the shipped pyro model (torch's global generator is snapshotted and perturbed too); CLI mains with --seed run in-process, and as fresh subprocesses under two PYTHONHASHSEED values (prepare step in quick, all steps in thorough).",
         ref="4/C18",
         note="Determinism is decided on the sampled inputs and seeds; injection granularity is one Python line of batchie code.",
         technique="differential (run twice) monitor + global-RNG state snapshots + line-granular injection of unrelated global draws",
     ),
     "C04": dict(
         cat="exploration",
-        text="Non-interference decided on pairs of executions: two screens that differ only behind the mask (random, 0, 1, NaN, -1, 1e300) go through the real train -> distance chunks -> score chunks -> select path (both MCMC models, four scorers, chunk counts, batches, policy; thorough: the four CLI mains on files) with identical seeds and every artefact is compared byte-wise; a monitor on add_observations compares the sampler's training arrays with the documented row set and transform; refusal cases for masked rows, negative and NaN input; observations arriving in two batches with sampler steps in between are compared with a fresh model holding the same rows, numeric sampler state and generator.",
+        text="Non-interference decided on pairs of executions: two screens that differ only behind the mask (random, 0, 1, NaN, -1, 1e300) go through the real train -> distance chunks -> score chunks -> select path (both MCMC models, four scorers, chunk counts, batches, policy; thorough: the four CLI mains on files) with identical seeds and every artefact is compared byte-wise; a monitor on add_observations compares the sampler's training arrays with the documented row set and transform; refusal cases for masked rows (also Plate-typed multi-plate views), negative and NaN input, and the converse: a finite, non-negative, fully observed training set (values above 1 included) must be accepted; observations arriving in two batches with sampler steps in between are compared with a fresh model holding the same rows, numeric sampler state and generator.",
         ref="4/C04",
         note="Pairs are explored, not enumerated; the interaction model's transform is pinned to its current formula; observed 0/1 excluded for it.",
         technique="paired-execution differential (non-interference) monitor + training-set post-condition on add_observations",
